@@ -488,3 +488,72 @@ def run(ctx):
     from . import C04 as c04
     r9 = ctx.rule("C16.R9", "send/receive/finish are followed by the socket's update on every path (stale interest is withdrawn)")
     c04.check_update_after_ops(P, r9, ops=("xcm_tp_socket_send", "xcm_tp_socket_receive", "xcm_tp_socket_finish"))
+
+    # ------------------------------------------------------------------ R10
+    r10 = ctx.rule("C16.R10", "a control client kept after a step waits for output exactly while a response is pending")
+    check_ctl_client_interest(P, r10)
+
+
+def check_ctl_client_interest(P, rule):
+    """the control clients are registered in the socket's own epoll set: a client registered for EPOLLOUT with nothing to
+    send is always ready, so xcm_fd() is readable for ever although no XCM call has anything to do (and, the other way
+    round, a pending response on an EPOLLIN registration is never sent).  In every function of ctl.c, on every path to
+    a return that keeps the client (non-negative, or void), the mask last given to the client's registration and the
+    flag last stored agree."""
+    fns = [f for f in P.functions if f.file.endswith("ctl/ctl.c")]
+    rec = P.record("client")
+    flags = [fl["name"] for fl in rec["fields"] if (fl.get("t") or "") in ("_Bool", "bool")]
+    if len(flags) != 1:
+        raise Broken("C16.R10: the response-pending flag of struct client was not identified (%s)" % flags)
+    flag = flags[0]
+    EPOLLIN, EPOLLOUT = 1, 4
+    nfn = 0
+    for f in sorted(fns, key=lambda g: g.name):
+        regs = [c for c in f.calls() if f.nodes[c].get("callee") in ("xpoll_fd_reg_mod", "xpoll_fd_reg_add") and "server" not in f.show(c)]
+        if not regs:
+            continue
+        nfn += 1
+        rule.instance("%s: %d registration calls for a client" % (f.qname, len(regs)))
+        bad = []
+
+        class Agree(S.SeqRule):
+            max_depth = 1
+
+            def user0(s2, fn):
+                return (None, None)        # (mask last registered, flag last stored)
+
+            def on_call(s2, fn, st, nid, callees, exts):
+                if fn is f and nid in regs:
+                    m = C.const_of(fn, fn.nodes[nid]["args"][-1])
+                    return (m if m is not None else "?", st.user[1])
+                return None
+
+            def on_store(s2, fn, st, nid, lhs, rhs, op):
+                ln = fn.sn(lhs)
+                if fn is f and ln["k"] == "member" and ln.get("field") == flag:
+                    v = C.const_of(fn, rhs)
+                    return (st.user[0], "?" if v is None else bool(v))
+                return None
+
+            def on_exit(s2, fn, st, ret_nid, ret_cls, top):
+                if not top or ret_cls == S.NEG:
+                    return
+                m, fl = st.user
+                if m is None or m == "?" or fl == "?":
+                    return
+                want = bool(m & EPOLLOUT)
+                if m & EPOLLOUT and m & EPOLLIN:
+                    return
+                if fl is None or fl != want:
+                    bad.append((ret_nid, m, fl))
+        S.run(Agree(P), f)
+        if bad:
+            ret, m, fl = bad[0]
+            rule.violation("%s:interest-and-pending-flag-disagree" % f.name, "%s can keep the client (non-negative return) with its registration set to %s and %s %s: %s"
+                           % (f.name, "EPOLLOUT" if m & EPOLLOUT else "EPOLLIN", flag, {None: "not stored", True: "true", False: "false"}[fl],
+                              "the writable control connection keeps xcm_fd() readable although nothing is pending" if m & EPOLLOUT else "the pending response is never sent"),
+                           loc=f.loc(ret) if ret is not None else f.file)
+        else:
+            rule.ok("%s: on every path that keeps the client, the registered mask and %s agree" % (f.qname, flag), "path exploration")
+    if nfn < 3:
+        raise Broken("C16.R10: only %d functions register control clients" % nfn)
